@@ -52,7 +52,7 @@ const MaxTail = 8
 // committee would not certify; violations on such paths get a separate signature class.
 func RecipeClass(name string) string {
 	if strings.Contains(name, "double-sign(V3 delegate)") {
-		return "delegate-named-as-double-signer"
+		return "unreachable-delegate-named-as-double-signer" // needs a +2/3 Byzantine committee: delegates are never committee members, so honest evidence cannot name them
 	}
 	return ""
 }
